@@ -188,8 +188,19 @@ func (b *builder) build(goal ast.Atom, depth int) []*ProofNode {
 		b.cache[h] = proofs
 		return proofs
 	}
+	// Only the first proof of a premise is ever used; alternatives are
+	// wanted for the goal of the query alone. The first recorded derivation
+	// of a fact used facts that were there before it, so following first
+	// events needs no search and cannot run into a cycle on its own: below
+	// the goal, a cycle cut can only hit the goal itself, which stays on the
+	// stack for the whole query, so every result may be cached.
+	maxProofs := b.opts.MaxProofs
+	if depth > 0 {
+		maxProofs = 1
+		events = events[:1]
+	}
 	for _, ev := range events {
-		if len(proofs) >= b.opts.MaxProofs {
+		if len(proofs) >= maxProofs {
 			break
 		}
 		p := b.buildFromEvent(ev, depth)
@@ -242,6 +253,12 @@ func (b *builder) buildRule(ev *Event, ruleID string, depth int) *ProofNode {
 			}
 			sub := b.build(fact, depth+1)
 			if len(sub) == 0 {
+				if b.store.Contains(fact) {
+					// The fact is there, but its derivation runs through
+					// the goal that is being built: this event is a cyclic
+					// alternative, not a proof.
+					return nil
+				}
 				partial = true
 				continue
 			}
@@ -305,11 +322,13 @@ func (b *builder) buildLet(ev *Event, ruleID string, depth int) *ProofNode {
 		sub := b.build(ground, depth+1)
 		if len(sub) == 0 {
 			if b.store.Contains(ground) {
-				sub = []*ProofNode{{ID: edbProofID(ground), Fact: ground, Kind: KindEDB}}
-			} else {
-				partial = true
-				continue
+				// A stored fact without events is a leaf already; this one
+				// has a derivation, but it runs through the goal that is
+				// being built: a cyclic alternative, not a proof.
+				return nil
 			}
+			partial = true
+			continue
 		}
 		premiseProofs = append(premiseProofs, sub[0])
 	}
